@@ -98,15 +98,7 @@ func checkC06(w *Worker) {
 		args := append([]string{"--no-color", "--today", c06Today}, cmd.Args...)
 		args = append(args, extra...)
 		rc := appCase{Args: args, Files: map[string]string{"food.yaml": bookText, "log.yaml": lt}}
-		if r, ok := refCache[key]; ok {
-			logRun(rc, r)
-			return r
-		}
-		r := runApp(rc)
-		if len(refCache) < 200000 {
-			refCache[key] = r
-		}
-		return r
+		return cachedRun(refCache, 200000, key, rc)
 	}
 	bounds := func(all bool) []string {
 		v := []string{""}
